@@ -17,6 +17,8 @@
 package format
 
 import (
+	"strings"
+
 	"github.com/goplus/xgo/ast"
 	"github.com/goplus/xgo/token"
 )
@@ -71,6 +73,9 @@ func commandStyleFirst(v *ast.CallExpr) {
 func fncallStartingLowerCase(v *ast.CallExpr) {
 	switch fn := v.Fun.(type) {
 	case *ast.SelectorExpr:
+		if name := fn.Sel.Name; name != "" && token.Lookup(strings.ToLower(name[:1])+name[1:]).IsKeyword() {
+			return // strings.Map must not become strings.map
+		}
 		startWithLowerCase(fn.Sel)
 	}
 }
